@@ -11,10 +11,10 @@ SRC = ["h/h_c01.c", "wrap/w_c01_errctx.c"]
 FMT_WRAPS = ["vsnprintf", "vsprintf", "vfprintf", "vprintf", "vasprintf", "vdprintf", "vsyslog", "strftime",
              "snprintf", "sprintf", "fprintf", "printf", "asprintf", "dprintf", "sscanf", "__isoc99_sscanf",
              "fscanf", "__isoc99_fscanf", "syslog"]
-V_TEXT = ("V (36 values) = {0, 1, -1, 2^31-1, 2^31, -2^31, 2^32, 2^32+1, 2^63-1, -2^63, 0.0, -1.5, 1e308, \"\", \"a\", "
+V_TEXT = ("V (37 values) = {0, 1, -1, 2^31-1, 2^31, -2^31, 2^32, 2^32+1, 2^63-1, -2^63, 0.0, -1.5, 1e308, \"\", \"a\", "
           "shared \"abc\", malloc'd \"abc\", \"ZQ%nZQ%sZQ%x\", a 65600-byte string, ({}), ({1,\"a\"}), self-containing array, "
           "array with two holders, ([]), ([\"a\":1]), 0-byte buffer, 4-byte buffer, class instance, efun/local/functional "
-          "function pointer, this_object(), an object destructed after the arguments were pushed, undefined, ({destructed object}), a second live object (fresh clone)}; "
+          "function pointer, this_object(), an object destructed after the arguments were pushed, undefined, ({destructed object}), a second live object (fresh clone), the multi-line string \"ab cd\\nef gh\\nij\"}; "
           "nolong = V minus the 65600-byte string; l4 = {0,\"a\",65600-byte string,({1,\"a\"})}; "
           "s16 = {0,second live object,-1,2^31,2^63-1,-2^63,-1.5,\"a\",taint,65600-byte,({1,\"a\"}),([\"a\":1]),4-byte buffer,class,local funptr,this_object()}; "
           "s12 = {0,1,-1,2^31,2^63-1,-2^63,\"a\",taint,65600-byte,({1,\"a\"}),([\"a\":1]),this_object()}; s8 = {0,-1,2^63-1,\"a\",taint,({1,\"a\"}),([\"a\":1]),this_object()}; "
@@ -127,7 +127,7 @@ def run(ck):
 def selftest(ck):
     """break the harness model / the environment (never the repo): every oracle channel must fire"""
     exe = build(ck)["h_c01"]
-    want = {1: "asan:heap-buffer-overflow:READ", 2: "vm-imbalance:sp:", 3: "format-taint:snprintf:", 4: "pc-outside-program:", 5: "driver-exit:exit(3)"}
+    want = {1: "asan:heap-buffer-overflow:READ", 2: "vm-imbalance:sp:", 3: "format-taint:snprintf:", 4: "pc-outside-program:", 5: "driver-exit:exit(3)", 6: "after-call-probe:wrong-result:"}
     bad = 0
     alpha = dict(op0="none", op1="none", op2="s6", op3="none", op4="none", ef0="none", ef1="none", ef2="none", ef3="none", ef4="none")
     for st, key in want.items():
